@@ -505,6 +505,11 @@ class World:
                     return self.call_contract(ex, self.contracts[path], path, [recv] + list(args), kwargs, _L(line))
                 if cp and (cp + '.' + name) in self.externs:
                     return self.call_extern(ex, self.externs[cp + '.' + name], cp + '.' + name, [recv] + list(args), kwargs, _L(line))
+                for base in getattr(self, 'bases', {}).get(cls, ()):       # inherited method under contract
+                    bp = self.class_path.get(base)
+                    if bp and (bp + '.' + ex.mangle_for(base, name)) in self.contracts:
+                        path = bp + '.' + ex.mangle_for(base, name)
+                        return self.call_contract(ex, self.contracts[path], path, [recv] + list(args), kwargs, _L(line))
                 raise Unsupported('method %s.%s has no contract (line %d)' % (cls, name, line))
             if isinstance(recv.ty, Rec):
                 key = (recv.ty.name, name)
